@@ -26,7 +26,7 @@ def sweep_scenario(run_seed, tier):
     ops = []
     evals = [i for i, op in enumerate(sc["ops"]) if op["op"] == "eval"]
     builds = [i for i, op in enumerate(sc["ops"]) if op["op"] == "build"]
-    n_ev = len(evals) if tier == "thorough" else min(len(evals), 2)
+    n_ev = min(len(evals), 6) if tier == "thorough" else min(len(evals), 2)
     pick_e = set(r.sample(evals, n_ev)) if evals else set()
     pick_b = set(r.sample(builds, 1)) if builds else set()
     for i, op in enumerate(sc["ops"]):
@@ -34,7 +34,7 @@ def sweep_scenario(run_seed, tier):
         if i in pick_e:
             ops.append({"op": "sweep_eval", "target": op["target"], "root": op["root"], "part": op["part"],
                         "frame": op["frame"], "stride": 1, "alternate": tier != "thorough",
-                        "max_points": 2000 if tier == "thorough" else 260,
+                        "max_points": 700 if tier == "thorough" else 260,
                         "mode": r.choice(["line", "call"]), "cold": op["target"] == op["root"] and r.random() < 0.5,
                         "fault": None})
         if i in pick_b:
@@ -60,7 +60,7 @@ def sweep_scenario(run_seed, tier):
         ops.append({"op": "set_config", "style": r.choice(["attr", "item"]), "key": KEY,
                     "value": r.choice(["warning", "silent"]), "valid": True, "fault": None})
         ops.append({"op": "sweep_eval", "target": b["id"], "root": b["id"], "part": part, "frame": fid, "stride": 1,
-                    "max_points": 2000 if tier == "thorough" else 260,
+                    "max_points": 700 if tier == "thorough" else 260,
                     "mode": r.choice(["line", "call"]), "cold": True, "fault": None})
     for j, op in enumerate(ops):
         op["n"] = j
